@@ -60,6 +60,16 @@ def run(c):
         "(what the generated reply codes / enhanced codes contain); the error a refused directive is reported with is not "
         "compared, only that the configuration is refused; the custom reply (code / enhanced code / text) is compared as "
         "parsed, not as it appears on the wire (the reply texts are C16's business)",
+        "DMARC policy discovery (round 9): Model `discover` mirrors FetchRecord / dmarcRecords / Verifier.Apply as far as they "
+        "choose the pipeline's Dmarc parameter (which of the two _dmarc names are asked, the filter on v=DMARC1, exactly one "
+        "record, p / sp, a temporary look-up failure refuses); inputs: the resolver's answers at the two names and whether "
+        "the alignment evaluation passes (alignment itself, pct, malformed records, the public suffix list are C07's "
+        "business); the op token w= carries the world, the driver checks that the op's dmarc field is `discover` of it, the "
+        "harness computes the same field from the steps of RFC 7489 section 6.6.3 on its own",
+        "a target.queue in front of a target (kind q<n|r>) is to the pipeline an atomic target that takes every message; "
+        "the model's hand-over to it (recipients, flag) is compared with what the target BEHIND the real queue is shown on "
+        "the queue's one attempt (max_tries 1; the queue is started fresh for the case and closed when its spool is empty); "
+        "retries, restarts between attempts (meta-data re-read from disk) and failure reports are C01 / C02 / C05 / C10's",
         "how the client spells the domain of a recipient (upper / mixed case) is not an input of the model: the endpoint "
         "normalises it (address.CleanDomain, as the harness does) before the pipeline sees the address; the LMTP "
         "per-command bookkeeping (one failure status per accepted RCPT command of an address, a command without one is "
@@ -123,7 +133,20 @@ def run(c):
         "rejecting the body or DMARC reject; the LMTP driver keeps the endpoint's per-command books (a failure status uses "
         "up the oldest accepted command of the address, a command without one is answered 250): a refusal of DATA before "
         "the targets must refuse EVERY accepted command, the per-command answers (st=) are compared with the model and "
-        "between the two body paths; distinct = distinct op lines",
+        "between the two body paths; "
+        "round 9: 22% of the run ops give the DMARC part a scripted DNS world (op token w=): RFC5322.From at the "
+        "organizational domain, in a subdomain or two labels below it (with a p=reject decoy at the name in between); at "
+        "_dmarc.<From domain> and at _dmarc.<organizational domain> independently: no such name / empty answer / only "
+        "non-DMARC TXT records (SPF, wildcard text) / one DMARC record alone or among such records / several DMARC records "
+        "/ temporary failure; p and sp in {none, quarantine, reject}, sp also absent; identifiers failing, passing for an "
+        "unrelated domain, or aligned; favoured (45%): a subdomain whose own _dmarc name has no DMARC record (half of them: "
+        "only stray TXT records) and a policy at the organizational domain, half of those with no check verdict at all; "
+        "the oracle computes the published policy from the world by the steps of RFC 7489 6.6.3 (not by internal/dmarc): "
+        "quarantine => every target sees the flag, reject => DATA refused and no target gets the body; 14% of the run ops "
+        "turn 1-2 targets into REAL target.queue objects (NewQueue + Init from configuration, own spool, max_tries 1) in "
+        "front of the recording target (40% refusing quarantined messages like target.remote), in 70% with a quarantine "
+        "verdict of an applicable check at a random one of the four stages: the flag / refusal oracle is evaluated at the "
+        "target behind the queue (violations name the queue hop); distinct = distinct op lines",
         explanation="theorems over all configurations, envelopes, both body paths and all completion orders; model tied to "
         "check_runner.go / msgpipeline.go by differential runs on the real pipeline and by regenerated call lists (T1)",
         search=search,
